@@ -213,7 +213,14 @@ def compare_streams(inferred, ref, crc_coverage_check=True):
                 cov = a[1]
                 # coverage must be exactly all preceding cells
                 if isinstance(cov, list) and cov != inferred[:i]:
-                    problems.append(f"cell {i}: CRC covers {len(cov)} cells, {i} precede it")
+                    j = 0
+                    while j < min(len(cov), i) and cov[j] == inferred[j]:
+                        j += 1
+                    if j < min(len(cov), i):
+                        why = f"covered cell {j} is {cell_str(cov[j])} but the packed cell is {cell_str(inferred[j])} (stale or different content)"
+                    else:
+                        why = f"it covers {len(cov)} cells, {i} precede it"
+                    problems.append(f"cell {i}: the CRC is not computed over exactly the preceding octets: {why}")
             bitpos += 16
     if not problems and len(inferred) != len(ref):
         extra = inferred[n:] if len(inferred) > n else ref[n:]
